@@ -45,6 +45,12 @@ DIMS = {
     "o_cookie": [None, "k=v; k2=v2"],
     "o_header": [None, ["X-A: 1", "X-B: two words"], {"X-A": "1", "X-N": None}, {"X-N": None}, {"User-Agent": "ua/1.0"}],
     "o_connection": [None, "keep-alive, Upgrade"],
+    # options that concern the transport, the TLS layer or the receive side: the request is the same with and without them
+    "o_unrelated": [None, None, {"sslopt": {"server_hostname": "sni.other.test"}}, {"sslopt": {"check_hostname": False, "cert_reqs": 0}},
+                    {"enable_multithread": False}, {"fire_cont_frame": True, "skip_utf8_validation": True}, {"sockopt": ((6, 1, 1),)},
+                    {"redirect_limit": 0}, {"http_proxy_host": "proxy.test", "http_proxy_port": 3128},
+                    {"http_proxy_host": "proxy.test", "http_proxy_port": 3128, "http_proxy_auth": ("u", "p"), "proxy_type": "http"},
+                    {"http_proxy_host": "proxy.test", "http_proxy_port": 3128, "sslopt": {"server_hostname": "sni.other.test"}}],
 }
 
 
@@ -99,11 +105,21 @@ def one(res, W, c, keys_seen, fresh=False):
         opts["header"] = c["o_header"] if isinstance(c["o_header"], list) else dict(c["o_header"])
     if c["o_connection"]:
         opts["connection"] = c["o_connection"]
+    unrelated = c.get("o_unrelated")
+    if unrelated:
+        opts.update({k: (dict(v) if isinstance(v, dict) else v) for k, v in unrelated.items()})
+        res.count("with_unrelated_option:" + "+".join(sorted(unrelated)))
+    proxied = bool(unrelated and "http_proxy_host" in unrelated)
     conns = []
 
     def on_conn(conn):
         conns.append(conn)
+        if proxied:
+            H.TunnelPeer(conn, serve)
+        else:
+            serve(conn)
 
+    def serve(conn):
         def resp(req):
             key = H.request_key(req) or ""
             extra = []
@@ -129,6 +145,12 @@ def one(res, W, c, keys_seen, fresh=False):
         return
     conn = conns[0]
     sent = bytes(conn.sent)
+    if proxied:
+        t = getattr(conn, "tunnel", None)
+        if t is None or t.tunnel_offset is None:
+            res.violation("connect-failed", f"{url} {opts}: no CONNECT exchange seen on the proxy connection", case, exc_type="none", option=["http_proxy_host"])
+            return
+        sent = sent[t.tunnel_offset:]
 
     def bad(kind, detail, **kw):
         res.violation(kind, f"{url} {opts}: {detail}", case, **kw)
